@@ -128,3 +128,13 @@ Print Assumptions c01_ror2_expect_nodefaults.
 Print Assumptions c01_ror2_expect_record.
 Print Assumptions c01_ror2_fill_spec.
 Print Assumptions c01_ror2_decode_roundtrip_nodefaults.
+
+(* non-vacuity: the premises of the round-trip theorems are satisfiable (record with an include, optional map, default,
+   array of unions) and the conclusion holds on that instance by computation *)
+Example c01_ror2_nonvacuous :
+  wf_env ex_env /\ wf_ty (TRef 2) /\ typed ex_env (TRef 2) ex_v /\
+  exists d, enc ex_env v2_wildcard ps_empty 10 [] (TRef 2) ex_v = Ok d /\
+            decode_ror2 ex_env v2_wildcard ps_empty 0 prs0 (unescape false) v2_empty_string v2_list_prefix false 30 None (TRef 2)
+              (render fmt0 FPath d)
+            = DOk (expect prs0 ex_env v2_wildcard 0 ex_v 30 (TRef 2)).
+Proof. exact Ror2RoundTrip.ex_nonvacuous. Qed.
